@@ -1,7 +1,7 @@
 INIT Init
 NEXT Next
 CONSTANTS
-  MaxContigs = 7
+  MaxContigs = 6
   MaxN = 1
   MaxStar = 1
   Modes = {"single", "multi"}
